@@ -38,10 +38,14 @@ class Impl:
         self.damv = im._lower_bound_damv
 
     def instance(self, W, H, items):
+        """the instance, or None if the constructor rejects it (ValueError/TypeError), or the name of any
+        other exception (ZeroDivisionError, ...) - which an accepted instance must never see"""
         try:
             return self.Instance("i", int(W), int(H), [list(map(int, r)) for r in items])
         except (ValueError, TypeError):
             return None
+        except Exception as e:  # noqa: BLE001 - reported as a finding with the failing input
+            return type(e).__name__
 
     def lb_line(self, W, H, items, verbose):
         """canonical implementation answer to `lb` / `lbv` for an instance the constructor accepts"""
@@ -49,14 +53,19 @@ class Impl:
         inst = self.instance(W, H, items)
         if inst is None:
             return None, "valid=false"
-        sq = self.cutsq(inst)
-        damv = self.damv(int(W), int(H), np.array(items, dtype=np.int64))
-        out = (f"valid=true damv={damv} lb={inst.lower_bound_bins} nsq={len(sq)} ssum={sum(sq)} "
-               f"ssq={sum(v * v for v in sq)}")
-        if verbose:
-            fw, fh = (H, W) if H > W else (W, H)
-            lq = [self.lbq(fw, fh, q, sq) for q in range(fh // 2 + 1)]
-            out += f" sq={cints(sq)} lq={cints(lq)}"
+        if isinstance(inst, str):
+            return inst, f"valid=true EXC={inst}"
+        try:
+            sq = self.cutsq(inst)
+            damv = self.damv(int(W), int(H), np.array(items, dtype=np.int64))
+            out = (f"valid=true damv={damv} lb={inst.lower_bound_bins} nsq={len(sq)} ssum={sum(sq)} "
+                   f"ssq={sum(v * v for v in sq)}")
+            if verbose:
+                fw, fh = (H, W) if H > W else (W, H)
+                lq = [self.lbq(fw, fh, q, sq) for q in range(fh // 2 + 1)]
+                out += f" sq={cints(sq)} lq={cints(lq)}"
+        except ArithmeticError as e:
+            out = f"valid=true EXC={type(e).__name__}"
         return inst, out
 
 
@@ -170,7 +179,7 @@ def gen_mid(ck: Check):
             items = []
             for _ in range(rng.randint(1, 3)):
                 if rng.random() < 0.4:
-                    a, b = rng.choice([mx, mx // 2, mx // 2 + 1, mx - 1]), 1
+                    a, b = min(mx, rng.choice([10**5, 99999, 65536, 65537])), 1
                 else:
                     a, b = rng.randint(1, min(mx, 6)), rng.randint(1, mn)
                 a = max(1, a)
@@ -255,6 +264,12 @@ def streams(ck: Check) -> None:
         if inst is None:
             ck.count("ctor_err")
             return None
+        if isinstance(inst, str):
+            ck.count("ctor_exception")
+            ck.spec(False, "ctor_exception", f"Instance(...) raises {inst} while computing the lower bound of an "
+                    "instance that passed all argument checks", {"W": W, "H": H, "items": items})
+            ctx[-1] = ("lb", stream, iout, (W, H, items, None, verbose))
+            return None
         lb = int(inst.lower_bound_bins)
         area = sum(w * h * r for w, h, r in items)
         geo = -(-area // (W * H))
@@ -316,7 +331,7 @@ def streams(ck: Check) -> None:
     for stream, W, H, items in gen_mid(ck):
         inst = impl.instance(W, H, items)
         wit = None
-        if inst is not None and max(W, H) <= 10**9:
+        if inst is not None and not isinstance(inst, str) and max(W, H) <= 10**9:
             rows, nb = heuristic_packing(impl, inst, rng, 4)
             wit = (rows, nb, "heuristic")
         add_lb(stream, W, H, items, max(W, H) <= 200, wit)
